@@ -645,6 +645,34 @@ func (w *World) GenOp() Op {
 		// stateLoop returns at its next select once the node is closed
 		return Op{Kind: "shutdown"}
 	}
+	// a transfer that ends (timeout, refused, leadership kept) while its timeout-now request is still unanswered: the
+	// answer arrives afterwards, then the timer it would have started. On a healthy node both find a nil channel / a
+	// stopped timer and do nothing
+	if d.Role == "leader" && d.Closed == "" {
+		if w.prevResp && !d.Ldr.Transfer.Active {
+			w.late = 1
+		}
+		w.prevResp = d.Ldr.Transfer.Active && d.Ldr.Transfer.RespPending
+		if w.late == 1 && !d.Ldr.Transfer.Active && len(d.Ldr.Repls) > 0 && w.chance(50) {
+			w.late = 2
+			return Op{Kind: "timeoutNowResult", Src: d.Ldr.Repls[w.Rng.Intn(len(d.Ldr.Repls))].ID, Result: 1}
+		}
+		if w.late == 2 && !d.Ldr.Transfer.Active && w.chance(50) {
+			w.late = 0
+			return Op{Kind: "newTermTimeout"}
+		}
+	} else {
+		w.late, w.prevResp = 0, false
+	}
+	if w.Broken && d.Role == "leader" && len(d.Ldr.Repls) > 0 && w.chance(18) {
+		// search mode: a late answer to an earlier timeout-now request, and the timer behind it. The state loop
+		// listens on transfer.respCh / newTermTimer in every state; both are dead (nil / stopped) once the transfer
+		// ended, so on a healthy node these are no-ops
+		if w.chance(60) {
+			return Op{Kind: "timeoutNowResult", Src: d.Ldr.Repls[w.Rng.Intn(len(d.Ldr.Repls))].ID, Result: 1}
+		}
+		return Op{Kind: "newTermTimeout"}
+	}
 	if w.Broken && w.chance(35) {
 		// search mode (model and implementation disagreed earlier in this sequence): probe the state with the
 		// operations whose results the monitors judge — snapshot + label, compaction, restart
@@ -936,6 +964,10 @@ func (w *World) GenOp() Op {
 			}
 			return Op{Kind: "transfer", Task: w.NextTask(), Target: tgt}
 		case r < 80:
+			if d.Ldr.Transfer.Active && (d.Ldr.Transfer.RespPending || d.Ldr.Transfer.NewTermTimer) && w.chance(25) {
+				// the transfer times out while the target's answer (or the new term it promised) is still outstanding
+				return Op{Kind: "transferTimeout"}
+			}
 			if d.Ldr.Transfer.RespPending {
 				src := d.Ldr.Transfer.Target
 				if src == 0 && len(d.Ldr.Repls) > 0 {
@@ -948,6 +980,15 @@ func (w *World) GenOp() Op {
 			}
 			if d.Ldr.Transfer.Active {
 				return Op{Kind: "transferTimeout"}
+			}
+			if len(d.Ldr.Repls) > 0 && w.chance(50) {
+				// no transfer in progress: the state loop still listens on transfer.respCh and on the new-term timer in
+				// every state. Both are dead once a transfer ended (nil channel / stopped timer), so the answer of an
+				// earlier timeout-now request that arrives only now, or the timer behind it, must do nothing
+				if w.chance(65) {
+					return Op{Kind: "timeoutNowResult", Src: d.Ldr.Repls[w.Rng.Intn(len(d.Ldr.Repls))].ID, Result: 1}
+				}
+				return Op{Kind: "newTermTimeout"}
 			}
 			return w.genBatch()
 		case r < 83:
